@@ -5,10 +5,11 @@ ROOT = os.path.dirname(os.path.abspath(__file__))
 sys.path.insert(0, ROOT)
 from checkcfg import PROPS, NOT_APPLICABLE, HOOK_COMMITS
 
+CLAIMED = set(open(os.path.join(ROOT, "CLAIMED.txt")).read().split())
 ids = [json.loads(l)["id"] for l in open(os.path.join(ROOT, "properties.jsonl")) if l.strip()]
 checks = []
 for pid in ids:
-    if pid not in PROPS or not PROPS[pid].get("claimed"):
+    if pid not in PROPS or pid not in CLAIMED:
         continue
     c = PROPS[pid]
     checks.append({
